@@ -72,6 +72,12 @@ class PartA:
     def fresh(self):
         from lib.hsmsrig import Rig
         self.rig = Rig(active=False, t6=2.0)
+        if self.ctx.rng.random() < 0.35:
+            # an application hook on the 'disconnected' event that fails: the endpoint's own clean-up must not depend on it
+            def failing_hook(data):
+                raise RuntimeError("application handler of 'disconnected' fails")
+            self.rig.protocol.events.disconnected += failing_hook
+            self.ctx.count("partA.rigs_with_failing_disconnected_hook")
 
     def bring_up(self, selected):
         rig = self.rig
